@@ -313,6 +313,9 @@ impl Report {
                 first = Some(f.clone());
             }
         }
+        if first.is_some() {
+            FAILING_CASES.fetch_add(1, std::sync::atomic::Ordering::Relaxed);
+        }
         first
     }
 
@@ -454,9 +457,13 @@ pub const DEFAULT_STACK: usize = 16 << 20;
 /// cost a watchdog timeout, and the run already has what it needs to report.
 pub static VIOLATIONS_SEEN: std::sync::atomic::AtomicUsize = std::sync::atomic::AtomicUsize::new(0);
 pub const FAIL_FAST_AFTER: usize = 6;
+/// Number of evaluated cases with a failure that is not a known finding.
+pub static FAILING_CASES: std::sync::atomic::AtomicUsize = std::sync::atomic::AtomicUsize::new(0);
+pub const FAIL_FAST_AFTER_CASES: usize = 12;
 
 pub fn enough_violations() -> bool {
     VIOLATIONS_SEEN.load(std::sync::atomic::Ordering::Relaxed) >= FAIL_FAST_AFTER
+        || FAILING_CASES.load(std::sync::atomic::Ordering::Relaxed) >= FAIL_FAST_AFTER_CASES
 }
 
 fn seed_bytes(seed: u64, label: &str, shard: usize) -> [u8; 32] {
